@@ -4,7 +4,7 @@ bitstring operand), not only the constructors and copies tagged C04."""
 META = {'explanation': 'ghost-heap ownership clause evaluated on every path of the derivation contracts (constructors, copies, raw-buffer '
                        'hand-offs) and of the public operators / slicing / mutators.'}
 EXTRA_TASKS = []
-ALSO_PROPS = ['C01', 'C16', 'C03']
+ALSO_PROPS = ['C01', 'C16', 'C03', 'C05', 'C10']
 EXTRA_TASKS = ['dtype_routes_isolation']
 
 
